@@ -38,6 +38,7 @@ class Runner:
         self.log = []
         self.mutex = threading.Lock()
         self.nb = 0
+        self.threaded = False
 
     def emit(self, **kw):
         with self.mutex:
@@ -84,7 +85,10 @@ class Runner:
                 self.build(t, s['prog'], s['key'], sync_at if first else None, on_sync if first else None)
                 first = False
             elif s['k'] == 'probe':
-                self.probe(t)
+                # a probe takes the lock for an instant and creates a unit: only meaningful (and only harmless)
+                # while no other thread can be building, so threaded scenarios probe once, after the join
+                if not self.threaded:
+                    self.probe(t)
             elif s['k'] == 'junk':
                 junk = [dict(a=i, b=[i] * (i % 7)) for i in range(s['n'])]
                 del junk
@@ -99,6 +103,7 @@ class Runner:
 
 
 def run_threads(runner, sc):
+    runner.threaded = True
     nt = len(sc['threads'])
     go = [threading.Event() for _ in range(nt)]
     attempted = [threading.Event() for _ in range(nt)]
@@ -147,6 +152,8 @@ def run_threads(runner, sc):
     hung = [i for i, th in enumerate(ths) if th.is_alive()]
     if hung:
         runner.emit(e='hang', t=hung[0] + 1)
+    else:
+        runner.probe(1)
     if errors:
         raise RuntimeError('; '.join(errors))
 
